@@ -181,7 +181,31 @@ def _go_levels_ctor(A):
     return sf.Series(A['i8'], index=mid, name='s'), (lambda: go.append(('b', 2))), ('b', 2), (lambda c: c.index)
 
 
-GO_SEEDS = {'IndexHierarchy.from_product(IndexGO)': _go_product, 'Series(index=IndexHierarchy(IndexHierarchyGO))': _go_levels_ctor,
+def _static_into_go(how):
+    # the reverse direction: a STATIC Frame is taken into a grow-only one (extend of an empty / non-empty FrameGO, to_frame_go, FrameGO(frame)); the grow-only Frame then grows
+    def build(A):
+        f = sf.Frame.from_items((('p', A['i8']), ('q', A['f8'])), index=A['lab'], name='f')
+        if how == 'extend-empty':
+            go = sf.FrameGO(index=f.index)
+            go.extend(f)
+        elif how == 'extend-nonempty':
+            go = sf.FrameGO.from_items((('z', A['i8b']),), index=A['lab'])
+            go.extend(f)
+        elif how == 'to_frame_go':
+            go = f.to_frame_go()
+        else:
+            go = sf.FrameGO(f)
+        extra = sf.Frame.from_items((('NEW2', A['f8'].copy()),), index=f.index)
+        def grow():
+            go['NEW'] = np.arange(len(f.index))
+            go.extend(extra)
+        return f, grow, 'NEW', (lambda c: c.columns)
+    return build
+
+
+GO_SEEDS = {'Frame-extended-into-an-empty-FrameGO': _static_into_go('extend-empty'), 'Frame-extended-into-a-FrameGO': _static_into_go('extend-nonempty'),
+            'Frame.to_frame_go()-source': _static_into_go('to_frame_go'), 'FrameGO(Frame)-source': _static_into_go('ctor'),
+            'IndexHierarchy.from_product(IndexGO)': _go_product, 'Series(index=IndexHierarchy(IndexHierarchyGO))': _go_levels_ctor,
             'IndexHierarchy.from_index_items(IndexGO)': _go_index_items, 'Frame.from_concat_items(FrameGO)': _go_concat_items,
             'Series.from_concat_items(index=IndexGO)': _go_series_concat_items, 'Index(IndexGO)': _go_index, 'FrameGO.to_frame()': _go_frame_to_frame, 'Frame(FrameGO)': _go_frame_ctor, 'Series(index=FrameGO.columns)': _go_columns_as_index,
             'IndexHierarchy(IndexHierarchyGO)': _go_hier, 'FrameGO.rename().to_frame()': _go_frame_rename}
